@@ -198,8 +198,14 @@ func (e *env) one(b *beh, n int) {
 	sampleExt := (n+int(seed()))%16 == 0
 	switch b.Op {
 	case "RoundTrip":
-		x := cmsx.Build(s, party, cmsx.BuildInput{ContentType: cmsx.OidTSTInfo,
-			EContent: cmsx.TSTInfoOctets(bytes.Repeat([]byte{9}, 32), pkix.AlgorithmIdentifier{Algorithm: cmsx.OidSHA256}, nil, e.now), Time: e.now, Inner: e.inner})
+		bi := cmsx.BuildInput{ContentType: cmsx.OidTSTInfo,
+			EContent: cmsx.TSTInfoOctets(bytes.Repeat([]byte{9}, 32), pkix.AlgorithmIdentifier{Algorithm: cmsx.OidSHA256}, nil, e.now), Time: e.now, Inner: e.inner}
+		if s.Payload == "octetlike" {
+			// id-data whose octets are themselves 04 1e <30 bytes>
+			bi.ContentType = pkcs7.OidData
+			bi.EContent = cmsx.TLV(0x04, append([]byte{0x04, 0x1e}, bytes.Repeat([]byte{0x77}, 30)...))
+		}
+		x := cmsx.Build(s, party, bi)
 		psd, err := pkcs7.Unmarshal(x)
 		if (err != nil) != (b.Outcome == "refused") {
 			key["kind"] = "refusal-differs"
@@ -236,6 +242,14 @@ func (e *env) one(b *beh, n int) {
 			key["kind"] = "signature-broken"
 			e.r.Fail(key, b, "RoundTrip: the third-party signature no longer verifies over the re-encoded value: %v", err)
 			return
+		}
+		// relic's own verifier must accept what a third party signed correctly (PSS is judged by the harness only)
+		if s.Key != "pss" && s.NCerts >= 1 {
+			if _, verr := psd.Content.Verify(nil, false); verr != nil {
+				key["kind"] = "relic-rejects-third-party"
+				e.r.Fail(key, b, "RoundTrip: relic's verifier rejects a correctly signed third-party value (payload %s): %v", s.Payload, verr)
+				return
+			}
 		}
 		if sampleExt && e.opensslAccepts(x) {
 			e.openssl(b, key, out, "token")
@@ -295,6 +309,10 @@ func (e *env) one(b *beh, n int) {
 	case "Embed", "EmbedDetach":
 		ki := e.w.Keys[[]string{"rsa2048", "p256"}[n%2]]
 		data := []byte(fmt.Sprintf("payload %d of the outer signature", n))
+		if s.Payload == "octetlike" {
+			// content whose octets look like a DER OCTET STRING themselves (a 30-byte digest, say)
+			data = append([]byte{0x04, 0x1e}, bytes.Repeat([]byte{byte(n)}, 30)...)
+		}
 		sb := pkcs7.NewBuilder(ki.Signer, []*x509.Certificate{ki.Leaf.Cert}, crypto.SHA256)
 		if err := sb.SetContentData(data); err != nil {
 			panic(err)
